@@ -546,7 +546,7 @@ def _inline_procedures(tree: ast.Module) -> None:
 
     counter = [0]
 
-    def expand(fn: ast.FunctionDef, helpers: dict, selfname: str | None, depth: int) -> None:
+    def expand(fn: ast.FunctionDef, helpers: dict, selfname: str | None, depth: int, mod_helpers: dict | None = None) -> None:
         if depth > 3:
             return
         for par in list(ast.walk(fn)):
@@ -566,14 +566,18 @@ def _inline_procedures(tree: ast.Module) -> None:
                     elif isinstance(st, ast.Return) and isinstance(st.value, ast.Call):
                         call, form = st.value, "return"
                     h = None
+                    is_mod = False
                     if call is not None and selfname is not None and isinstance(call.func, ast.Attribute) and isinstance(call.func.value, ast.Name) and call.func.value.id == selfname:
                         h = helpers.get(call.func.attr)
+                    elif call is not None and mod_helpers and form == "expr" and isinstance(call.func, ast.Name):
+                        h = mod_helpers.get(call.func.id)
+                        is_mod = h is not None
                     if h is None or h is fn or not _proc_inlinable(h, form == "return") or any(isinstance(a_, ast.Starred) for a_ in call.args) or any(k.arg is None for k in call.keywords):
                         new.append(st)
                         continue
                     counter[0] += 1
                     tag = f"__inl{counter[0]}_"
-                    static = any(isinstance(d, ast.Name) and d.id == "staticmethod" for d in h.decorator_list)
+                    static = is_mod or any(isinstance(d, ast.Name) and d.id == "staticmethod" for d in h.decorator_list)
                     params = [a_.arg for a_ in h.args.args]
                     mapping: dict[str, ast.AST] = {}
                     pre: list = []
@@ -708,6 +712,37 @@ def _inline_procedures(tree: ast.Module) -> None:
                 if ast.dump(fn) == before:
                     break
                 inlined_any.add(cls.name)
+    # module-level private procedures (no value returned) with a single call site, called as a statement: a named
+    # piece of their caller (`_assign(weights, ranked, p)` that fills `weights` in place)
+    top = [n for n in tree.body if isinstance(n, ast.FunctionDef)]
+    name_refs: dict[str, int] = {}
+    for x in ast.walk(tree):
+        if isinstance(x, ast.Name) and isinstance(x.ctx, ast.Load):
+            name_refs[x.id] = name_refs.get(x.id, 0) + 1
+        elif isinstance(x, ast.Attribute):
+            name_refs[x.attr] = name_refs.get(x.attr, 0) + 1
+    mod_helpers = {}
+    for h in top:
+        if name_refs.get(h.name, 0) != 1 or not _proc_inlinable(h, False) or _has_early_return(h):
+            continue
+        if any(isinstance(x, ast.Return) and x.value is not None for x in ast.walk(h)):
+            continue
+        n_st = sum(1 for s_ in h.body for x in ast.walk(s_) if isinstance(x, ast.stmt))
+        if n_st <= 12:
+            mod_helpers[h.name] = h
+    mod_inlined = set()
+    if mod_helpers:
+        callers = top + [n for c_ in tree.body if isinstance(c_, ast.ClassDef) for n in c_.body if isinstance(n, ast.FunctionDef)]
+        for fn in callers:
+            if fn.name in mod_helpers:
+                continue
+            before = ast.dump(fn)
+            expand(fn, {}, None, 0, mod_helpers)
+            if ast.dump(fn) != before:
+                mod_inlined.add(fn.name)
+        if mod_inlined:
+            still = {x.id for x in ast.walk(tree) if isinstance(x, ast.Name) and isinstance(x.ctx, ast.Load)}
+            tree.body[:] = [n for n in tree.body if not (isinstance(n, ast.FunctionDef) and n.name in mod_helpers and n.name not in still)]
     # a private helper whose every call was replaced by its body is no longer part of the program in
     # normal form: drop its definition (otherwise rules would see its statements twice)
     if inlined_any:
